@@ -163,6 +163,7 @@ class Result:
         self.errors = []
         self.job_transitions = 0
         self.deviation_runs = 0
+        self.status_into = {}     # key -> job status of its BFS-tree edge
         self.wall = 0.0
         self.init_key = None
 
@@ -236,6 +237,7 @@ def explore(driver_spec, workers=None, max_depth=None, time_cap=None,
                                           task[4], dev, r['extra']['ctx']))
                 if k not in res.parents:
                     res.parents[k] = (task[3], task[4])
+                    res.status_into[k] = r['status']
                     enabled[k] = r['enabled']
                     new_frontier.append(k)
                 if time_cap and time.time() - t0 > time_cap:
